@@ -73,8 +73,12 @@ func (c08) Gen(seed uint64, run int, tier string) *Plan {
 			p.Actions = append(p.Actions, Action{Kind: "fetch"})
 		case x < 85:
 			p.Actions = append(p.Actions, Action{Kind: "callback", B: node, C: r.Intn(len(world.Callbacks)), D: r.Intn(1 << 30), A: r.Intn(4)})
-		default:
+		case x < 93:
 			p.Actions = append(p.Actions, Action{Kind: "dup-callback", B: node, C: r.Intn(len(world.Callbacks)), D: r.Intn(1 << 30)})
+		default:
+			// the pipe to a pivot agent drops while it works on a task; it is linked again below
+			// another agent (C) and answers from there
+			p.Actions = append(p.Actions, Action{Kind: "relink", B: node, C: r.Intn(n), D: r.Intn(1 << 20)})
 		}
 	}
 	return p
@@ -289,6 +293,69 @@ func (c08) Exec(p *Plan, dir string) *Result {
 			res.Probe("tasks-issued")
 		case "fetch":
 			fetchAll()
+		case "relink":
+			ni := a.B % len(nodes)
+			n := nodes[ni]
+			if n.d.Parent == nil || len(n.d.Children) > 0 || ni == 0 {
+				continue
+			}
+			fetchAll()
+			if len(res.Violations) > 0 {
+				break
+			}
+			if len(n.open) == 0 {
+				taskN++
+				rid := uint32(0x08000000 + taskN)
+				wit.Task(n.d.NameID(), fmt.Sprintf("%08x", rid), world.CmdSleep, "sleep", map[string]any{"Arguments": "2;2"})
+				w.Sim.Settle()
+				n.pending = append(n.pending, &c08Task{rid: rid, cmd: world.CmdSleep, args: []any{uint32(2), uint32(2)}})
+				fetchAll()
+				if len(res.Violations) > 0 || len(n.open) == 0 {
+					break
+				}
+			}
+			rid := n.open[0]
+			old := n.d.Parent
+			q := nodes[a.C%ni].d // created before n: not one of its descendants
+			// the old parent reports that the pipe is gone
+			var db world.PB
+			db.Int32(world.PivotSMBDisconnect).Int32(1).Int32(n.d.ID)
+			w.SendUp(old, []world.Pkg{{Cmd: world.CmdPivot, RID: 0, Body: db.B}})
+			for k, c := range old.Children {
+				if c == n.d {
+					old.Children = append(old.Children[:k], old.Children[k+1:]...)
+					break
+				}
+			}
+			// the new parent reports the connect (the agent exists: a reconnect)
+			n.d.Parent = q
+			var cb world.PB
+			cb.Int32(world.PivotSMBConnect).Int32(1).Bytes(n.d.InitPacket())
+			w.SendUp(q, []world.Pkg{{Cmd: world.CmdPivot, RID: 0, Body: cb.B}})
+			q.Children = append(q.Children, n.d)
+			if n.d.Depth() > maxDepth {
+				maxDepth = n.d.Depth()
+			}
+			ag := w.TS.AgentInstance(int(n.d.ID))
+			if ag == nil || ag.Pivots.Parent == nil || ag.Pivots.Parent.NameID != q.NameID() {
+				// (C09 judges the graph; without the link there is nothing to route over)
+				res.Observations = append(res.Observations, "relink did not take")
+				break
+			}
+			// the answer to the task it was working on arrives over the new link
+			delay := uint32(100000 + a.D%100000)
+			var pb world.PB
+			pb.Int32(delay).Int32(3)
+			w.SendUp(n.d, []world.Pkg{{Cmd: world.CmdSleep, RID: rid, Body: pb.B}})
+			wit.Pump()
+			res.Probe("answers-after-relink")
+			res.FP("relink", n.d.Depth())
+			if ag.Info.SleepDelay != int(delay) {
+				res.Violate("C08", "relayed-callback", "answer-after-relink-dropped", fmt.Sprintf("agent %s was handed task rid=%x, lost its link to %s, was linked again below %s and answered from there: the answer was not acted on (sleep %d, answered %d)", n.d.NameID(), rid, old.NameID(), q.NameID(), ag.Info.SleepDelay, delay), w.Sim)
+				break
+			}
+			n.open = n.open[1:]
+			n.done = append(n.done, rid)
 		case "callback", "dup-callback":
 			n := nodes[a.B%len(nodes)]
 			if n.d.Parent == nil {
